@@ -10,6 +10,7 @@ pub mod c02;
 pub mod c03;
 pub mod c04;
 pub mod c05;
+pub mod c06;
 pub mod c07;
 pub mod c10;
 pub mod c11;
@@ -17,6 +18,7 @@ pub mod c12;
 pub mod c13;
 pub mod c14;
 pub mod c15;
+pub mod c16;
 pub mod c17;
 pub mod facts;
 
@@ -80,6 +82,7 @@ pub fn check(prop: &str, cx: &Cx, rep: &mut Report) {
         "C03" => c03::check(cx, rep),
         "C04" => c04::check(cx, rep),
         "C05" => c05::check(cx, rep),
+        "C06" => c06::check(cx, rep),
         "C07" => c07::check(cx, rep),
         "C10" => c10::check(cx, rep),
         "C11" => c11::check(cx, rep),
@@ -87,6 +90,7 @@ pub fn check(prop: &str, cx: &Cx, rep: &mut Report) {
         "C13" => c13::check(cx, rep),
         "C14" => c14::check(cx, rep),
         "C15" => c15::check(cx, rep),
+        "C16" => c16::check(cx, rep),
         "C17" => c17::check(cx, rep),
         _ => panic!("no oracle for {prop}"),
     }
